@@ -437,3 +437,48 @@ func boundArgument(p *Program, fn *ssa.Function, at ssa.Instruction, X ssa.Value
 	}
 	return ""
 }
+
+// repeatGuards: strings.Repeat panics on a negative count
+func repeatGuards(c *Ctx, rule string) {
+	p := c.P
+	n := 0
+	for _, fn := range p.Funcs {
+		if !p.InLang(fn) && !p.InCli(fn) {
+			continue
+		}
+		for _, call := range callsIn(fn) {
+			f := call.Common().StaticCallee()
+			if f == nil || (f.String() != "strings.Repeat" && f.String() != "bytes.Repeat") {
+				continue
+			}
+			n++
+			cnt := call.Common().Args[1]
+			key := fmt.Sprintf("repeat-count #%d in %s", n, shortName(fn))
+			if k, ok := constInt(cnt); ok {
+				c.check(k >= 0, rule, key, p.InstrPos(call), "constant count", "negative constant count")
+				continue
+			}
+			nonNeg := false
+			for _, rl := range FactsOf(fn).At(call.Block()).Rels() {
+				// count > k / count >= k with k >= 0
+				if rl.x == cnt && (rl.op == relGT || rl.op == relGE) {
+					if k, ok := constInt(rl.y); ok && k >= 0 {
+						nonNeg = true
+					}
+				}
+				// count = a - b under b < a / b <= a
+				if b, ok := cnt.(*ssa.BinOp); ok && b.Op == token.SUB {
+					ra, rb := p.RenderShort(b.X), p.RenderShort(b.Y)
+					x, y := p.RenderShort(rl.x), p.RenderShort(rl.y)
+					if (x == rb && y == ra && (rl.op == relLT || rl.op == relLE)) || (x == ra && y == rb && (rl.op == relGT || rl.op == relGE)) {
+						nonNeg = true
+					}
+				}
+			}
+			c.check(nonNeg, rule, key, p.InstrPos(call), "the count is known to be non-negative", "strings.Repeat is called with the count "+p.RenderShort(cnt)+", which is not known to be >= 0 here: a negative count is a Go panic (e.g. a column of -1)")
+		}
+	}
+	if n < 4 {
+		c.undecided(rule, "repeat-count instance-floor", "", fmt.Sprintf("%d Repeat calls found, 4 confirmed by hand (printf padding)", n))
+	}
+}
